@@ -42,18 +42,20 @@ inductive PAct where
 
 namespace PAct
 
-/-- `for _ in 0..n { body }`: `body next`. -/
-def forN : Nat → (PAct → PAct) → PAct → PAct
-  | 0, _, rest => rest
-  | n + 1, body, rest => body (forN n body rest)
+/-- `for _ in 0..n { body }`: `body next`; `next` and what follows the loop are thunks, so that a tree is only built as
+    far as it is walked (the trees are also executed: `Main/ProtoSearch.lean`). -/
+def forN : Nat → ((Unit → PAct) → PAct) → (Unit → PAct) → PAct
+  | 0, _, rest => rest ()
+  | n + 1, body, rest => body (fun _ => forN n body rest)
 
 /-- `loop` / `while` with loop-carried state and fuel. -/
 def loopN {σ : Type} : Nat → (σ → (σ → PAct) → PAct) → σ → PAct
   | 0, _, _ => .diverge
   | n + 1, body, s => body s (loopN n body)
 
-@[simp] theorem forN_zero (body : PAct → PAct) (rest : PAct) : forN 0 body rest = rest := rfl
-theorem forN_succ (n : Nat) (body : PAct → PAct) (rest : PAct) : forN (n + 1) body rest = body (forN n body rest) := rfl
+@[simp] theorem forN_zero (body : (Unit → PAct) → PAct) (rest : Unit → PAct) : forN 0 body rest = rest () := rfl
+theorem forN_succ (n : Nat) (body : (Unit → PAct) → PAct) (rest : Unit → PAct) :
+    forN (n + 1) body rest = body (fun _ => forN n body rest) := rfl
 theorem loopN_succ {σ : Type} (n : Nat) (body : σ → (σ → PAct) → PAct) (s : σ) : loopN (n + 1) body s = body s (loopN n body) := rfl
 
 end PAct
